@@ -160,3 +160,17 @@ const _: () = {
     }
 };
     
+#[cfg(ohkami_verif)]
+#[cfg(feature="__rt__")]
+impl Path {
+    /// number of captured params and their `(address, length)` pairs
+    pub(crate) fn __verif_raw_params(&self) -> (usize, [(usize, usize); 2]) {
+        let inner = unsafe {self.0.assume_init_ref()};
+        let mut out = [(0, 0); 2];
+        for (i, slice) in inner.params.iter().enumerate().take(2) {
+            let bytes = unsafe {slice.as_bytes()};
+            out[i] = (bytes.as_ptr() as usize, bytes.len());
+        }
+        (inner.params.next, out)
+    }
+}
